@@ -166,6 +166,15 @@ def auto_discharge(ctx, s):
                 and all(re.search(r"<impl str>::(len|find|rfind)$|string::String::len$|regex::Match(::<'h>)?::(start|end|len)$|Deref>?::deref$|Iterator>?::next$|<impl \[T\]>::iter$|IntoIterator>?::into_iter$", c) for c in ncalls) \
                 and any(re.search(r"::len$|::find$|::rfind$|::start$|::end$", c) for c in ncalls):
             return ("std-contract", "a one-byte string repeated at most len(an existing string) times cannot overflow the capacity")
+    if kind in ("std:borrow_mut", "std:borrow") and (t.get("def") or "").startswith("std::cell::RefCell"):
+        # a RefCell panics on a second overlapping borrow. RefCell is never Sync, so overlap needs two
+        # activations on one thread: with a single borrowing site for this cell type in the reachable crate
+        # code, that is recursion through the site's function (decided by C04.recursion)
+        rty = re.sub(r"^&(mut )?", "", (t.get("arg_tys") or [""])[0])
+        sites = [(b2.id, bi) for b2 in ctx.reachable_bodies() if b2.promoted is None for bi, t2 in b2.calls()
+                 if re.match(r"std::cell::RefCell::<T>::(try_)?borrow(_mut)?$", t2.get("def") or "") and re.sub(r"^&(mut )?", "", (t2.get("arg_tys") or [""])[0]) == rty]
+        if len(sites) == 1 and rty:
+            return ("invariant", "the only borrow of a `%s` in the reachable crate code: no second borrow can overlap it (RefCell is not Sync; the call graph is acyclic)" % rty)
     if kind == "index-json":
         return ("std-contract", "Index<&str> / Index<usize> for serde_json::Value returns Null for a missing key; it does not panic")
     if kind in ("index-str", "index-slice") and t.get("args") and len(t["args"]) > 1:
@@ -282,7 +291,14 @@ def run(ctx, out, tier):
             by_class[ad[0]] = by_class.get(ad[0], 0) + 1
             auto_now[s["ckey"]] = auto_now.get(s["ckey"], 0) + 1
             continue
-        groups.setdefault(s["ckey"], []).append(s)
+        ck0 = s["ckey"]
+        if ck0 not in table:
+            # an index that is a field of a local (`self.idx`, a destructured argument struct) is an index held
+            # in a variable: the reviewed argument for `v[i]` in this file covers it
+            m_al = re.match(r"^(.*\|index-[a-z]+\|[^\[\]]*)\[\.\w+\]$", ck0)
+            if m_al and (m_al.group(1) + "[i]") in table:
+                ck0 = m_al.group(1) + "[i]"
+        groups.setdefault(ck0, []).append(s)
     for ck, ss in sorted(groups.items()):
         d = table.get(ck)
         if d is not None:
